@@ -210,10 +210,10 @@ pub fn spec(id: &str) -> Option<PropSpec> {
         "C11" => PropSpec {
             id: "C11",
             level: "exploration",
-            families: vec![(Family::C11, 100)],
-            quick_runs: 24_000,
+            families: vec![(Family::C11, 55), (Family::C11X, 45)],
+            quick_runs: 26_000,
             thorough_runs: 2_000_000,
-            rule: "one run = 3..10 requests over the id alphabet {1,2,3} (PUBLISH QoS1/2, SUBSCRIBE, UNSUBSCRIBE, PUBREL, some stray) against gated handlers completing ok/negative before or after the reuse attempt; wire-side model: an id is open from the request until the k-th closing ack (PUBACK / refusing PUBREC / PUBCOMP / SUBACK / UNSUBACK) of its kind, refusals (0x91, 0x92) attributed to the most plausible request; oracle: a request whose id is certainly in use never reaches a handler, one whose id is certainly free is never refused, a PUBREL for an id not in use is refused; distinct = distinct abstract history signature; non-trivial = an id was used by two requests in the run",
+            rule: "two families. (1) C11X, enumeration: EVERY history of length 1..4 over the alphabet {PUBLISH QoS 1, PUBLISH QoS 2, SUBSCRIBE, UNSUBSCRIBE, PUBREL} x identifiers {1, 2} (servers: 10 letters; clients: the 6 letters a server may send), in all four roles and four handler modes (all handlers complete at once; gated and completed in a seeded order; gated with negative outcomes and some held until the closing phase; gated with PUBRELs that do not wait for PUBREC): 101,312 points, ordered so that the first 10,944 are all histories of length <= 3; the quick tier executes those, the thorough tier the whole enumeration repeatedly, each execution under its own seeded schedule. (2) C11, seeded: 3..10 requests over the ids {1,2,3} (also stray PUBRELs) against gated handlers completing ok/negative before or after the reuse attempt. Wire-side model: an id is open from the request until the k-th closing ack (PUBACK / refusing PUBREC / PUBCOMP / SUBACK / UNSUBACK) of its kind, refusals (0x91, 0x92) attributed to the most plausible request; oracle: a request whose id is certainly in use (its holder's handler has not completed; QoS 2: the handler of its PUBREL has not completed) never reaches a handler, one whose id is certainly free is never refused, a PUBREL for an id not in use is refused; distinct = distinct abstract history signature; non-trivial = an id was used by two requests in the run",
             nontrivial: nt_c11,
             assumptions: base,
         },
